@@ -6,6 +6,7 @@
 -/
 import Nuts.Model.Tx
 import NutsProofs.Lemmas.Assoc
+import NutsProofs.Lemmas.Isolation
 namespace NutsProofs.C04
 open Nuts Nuts.Model Nuts.Model.DB NutsProofs
 
@@ -117,5 +118,66 @@ theorem getAll_of_view (s s' : State) (b : Bytes) (now : Nat) (hm : s.opt.mode =
 
 /-- non-vacuity: two buckets whose names are prefixes of each other, a commit on one of them -/
 example : view (commit {} [mkRec [97, 98] [99] [1] flagSet dsKV]).1 [97] = view {} [97] := by decide
+
+/-! ### history level: a bucket is a function of its own records (`Lemmas/Isolation.lean`) -/
+
+open NutsProofs.Reopen NutsProofs.ReopenAll NutsProofs.Isolation in
+/-- **C04, every history, every structure.** After any history of successful commits over key/value pairs,
+lists, sets and sorted sets, with reopens (key+value mode), what bucket `b` holds — the keys and cached
+records of its key/value index, its list, set and sorted-set structures — is what the records of the log that
+name `b` produce *on their own*, in their order: every record of every other bucket can be deleted from the
+history without a trace in `b`. The only relation between bucket names used is `≠` on whole byte strings, so
+prefixes, the empty name and coinciding bucket+key concatenations are covered. (`normKV` sets the status
+field of the cached records to Committed, as recovery does; no read looks at that field.) -/
+theorem C04_bucket_is_function_of_own_records (opt0 : Opts) (ops : List OpA) (hok : OpsOkA (openDB opt0 []).1 ops)
+    (b : Bytes) :
+    let s := ops.foldl stepA (openDB opt0 []).1
+    let own := ((allRecs s.files).map (·.1)).filter fun r => r.bucket == b
+    recsOf ((aget? (normKV s.kv) b).getD []) = bucketOfRecs [] (own.filter fun r => r.ds == dsKV) ∧
+    viewSV (sv s) b = viewSV (foldSV emptySV own false) b := by
+  intro s own
+  have hinv : AllInv s := allInv_ops ops _ (allInv_init opt0) hok
+  constructor
+  · rw [hinv.idx, kvOfLog_project]
+    congr 1
+    show (((allRecs s.files).filter isKVrec).filter fun x => x.1.bucket == b).map (·.1) = own.filter fun r => r.ds == dsKV
+    simp only [own, List.filter_map, List.filter_filter]
+    congr 1
+    apply List.filter_congr
+    intro x _
+    simp only [isKVrec, Function.comp]
+    exact Bool.and_comm _ _
+  · rw [hinv.structs]
+    exact foldSV_project _ _ _ b false rfl
+
+open NutsProofs.Reopen NutsProofs.ReopenAll NutsProofs.Isolation in
+/-- **C04 as non-interference.** Two histories whose logs agree on the records that name `b` leave the same
+thing in `b`, whatever they did to any other bucket. -/
+theorem C04_other_buckets_cannot_matter (opt1 opt2 : Opts) (ops1 ops2 : List OpA)
+    (hok1 : OpsOkA (openDB opt1 []).1 ops1) (hok2 : OpsOkA (openDB opt2 []).1 ops2) (b : Bytes)
+    (hsame : (((allRecs (ops1.foldl stepA (openDB opt1 []).1).files).map (·.1)).filter fun r => r.bucket == b) =
+             (((allRecs (ops2.foldl stepA (openDB opt2 []).1).files).map (·.1)).filter fun r => r.bucket == b)) :
+    let s1 := ops1.foldl stepA (openDB opt1 []).1
+    let s2 := ops2.foldl stepA (openDB opt2 []).1
+    recsOf ((aget? (normKV s1.kv) b).getD []) = recsOf ((aget? (normKV s2.kv) b).getD []) ∧
+    viewSV (sv s1) b = viewSV (sv s2) b := by
+  intro s1 s2
+  have h1 := C04_bucket_is_function_of_own_records opt1 ops1 hok1 b
+  have h2 := C04_bucket_is_function_of_own_records opt2 ops2 hok2 b
+  simp only at h1 h2
+  refine ⟨?_, ?_⟩
+  · rw [h1.1, h2.1, hsame]
+  · rw [h1.2, h2.2, hsame]
+
+/-- non-vacuity: a history over buckets "a", "ab" and "" with coinciding bucket+key concatenations -/
+theorem C04_witness_colliding_names : NutsProofs.ReopenAll.OpsOkA (openDB {} []).1
+    [.commit [mkRec [97] [98, 99] [1] flagSet dsKV], .commit [mkRec [97, 98] [99] [2] flagSet dsKV],
+     .commit [mkRec [] [97, 98, 99] [3] flagSet dsKV], .reopen {}] := by
+  refine ⟨⟨by simp, 0, ?_⟩, by decide +kernel, ⟨by simp, 0, ?_⟩, by decide +kernel, ⟨by simp, 0, ?_⟩, by decide +kernel, rfl, trivial⟩
+  all_goals
+    intro r hr
+    simp only [List.mem_cons, List.mem_nil_iff, or_false] at hr
+    subst hr
+    exact ⟨by decide +kernel, rfl, fun hd => absurd hd (by decide +kernel)⟩
 
 end NutsProofs.C04
